@@ -347,6 +347,141 @@ def e2_selfcheck():
     return out
 
 
+# --------------------------------------------------------------- histories -----
+class _Reactor:
+    def __init__(self):
+        self.calls = []  # (due datetime, fn, args)
+
+    def callLater(self, delay, fn, *a, **k):
+        self.calls.append((_ClockModule.NOW + datetime.timedelta(seconds=delay), fn, a))
+
+    def reset(self):
+        del self.calls[:]
+
+
+_H = {}
+
+
+def _hsetup():
+    if 'w' not in _H:
+        from vp.shims import schedworld
+        from vp.shims.reactor import NS
+
+        t3 = datetime.time(3, 0, 0)
+        spec = [
+            {'task': 'ta', 'name': 'a', 'kind': 'task', 'refs': [], 'events': [dawgie.MOMENT(None, None, None, 0, t3)]},  # every Monday 03:00
+            {'task': 'tb', 'name': 'b', 'kind': 'analysis', 'refs': [('ta', 'a', 'sv')], 'events': [dawgie.MOMENT(True, None, None, None, None)]},  # at boot
+            {'task': 'tc', 'name': 'c', 'kind': 'task', 'refs': [], 'events': [dawgie.MOMENT(None, None, 8, None, t3)]},  # the 8th of every month 03:00
+        ]
+        _H['w'] = schedworld.World(spec, targets=['T1', 'T2'])
+        _H['r'] = _Reactor()
+        schedule.twisted = NS(internet=NS(reactor=_H['r']))
+    return _H['w'], _H['r']
+
+
+HEVENTS = ['ADVANCE', 'WORK', 'RELOAD', 'NEWTARGET']
+
+
+def hist_body(k, sel):
+    """boot at Monday 2024-01-01 02:58 UTC; events: ADVANCE (the next pending timer fires at its
+    due instant), WORK (dispatch and let every released unit succeed, until nothing is in flight),
+    RELOAD (schedule.build + periodics as state.FSM._pipeline does), NEWTARGET"""
+    with rt.island():
+        w, r = _hsetup()
+        w.reset()
+        r.reset()
+        set_clock(2024, 1, 1, 2, 58, 0)
+        w.known_targets[:] = ['T1', 'T2']
+        ev_facs = w.ae.factories[dawgie.Factories.events]
+        fired = {}  # tag -> instants at which the node was queued by a timer event (since the last load)
+        rt.note('BOOT 2024-01-01 02:58 (Monday)')
+        schedule.periodics(ev_facs)
+        _hmon(w, r, fired, 'BOOT')
+    for step in range(k):
+        e = None
+        for j in range(len(HEVENTS)):
+            if sel[step] == j:
+                e = j
+                break
+        if e is None:
+            return
+        with rt.island():
+            name = HEVENTS[e]
+            if name == 'ADVANCE':
+                if not r.calls:
+                    return
+                r.calls.sort(key=lambda c: c[0])
+                due, fn, a = r.calls.pop(0)
+                _ClockModule.NOW = max(due, _ClockModule.NOW)
+                rt.note(f'ADVANCE to {_ClockModule.NOW:%Y-%m-%d %H:%M:%S} (timer fires)')
+                fn(*a)
+            elif name == 'WORK':
+                if not schedule.que:
+                    return
+                rt.note('WORK until nothing is in flight')
+                for _ in range(8):
+                    w.dispatch(4)
+                    fl = w.inflight()
+                    if not fl:
+                        break
+                    for idx in fl:
+                        w.reply(idx, True, newmask=[False])
+            elif name == 'RELOAD':
+                rt.note('RELOAD')
+                schedule.build(w.ae.factories, ({}, {}, {}), (None, {}, {}, {}))
+                w.nodes = {}
+                for root in schedule.ae.at:
+                    for n in root.iter():
+                        w.nodes[n.tag] = n
+                del w.sent[:]
+                del w.answered[:]
+                for tag in list(fired):
+                    fired[tag] = []
+                schedule.periodics(ev_facs)
+            else:
+                if 'T3' in w.known_targets:
+                    return
+                rt.note('NEWTARGET T3')
+                w.known_targets.append('T3')
+            _hmon(w, r, fired, name)
+
+
+def _hmon(w, r, fired, where):
+    now = _ClockModule.NOW
+    qtags = {j.tag: j for j in schedule.que}
+    for n in schedule.per:
+        tag = n.tag
+        for ev in n.get('period'):
+            m = ev.moment
+            if m.boot is not None:
+                continue
+            at = now.replace(hour=m.time.hour, minute=m.time.minute, second=m.time.second, microsecond=0)
+            today = (m.dow is not None and now.isoweekday() - 1 == m.dow) or (m.dom is not None and now.day == m.dom)
+            due = today and now >= at - datetime.timedelta(seconds=300)
+            if where in ('BOOT', 'ADVANCE', 'RELOAD') and due and now.date() not in [x.date() for x in fired.get(tag, [])]:
+                rt.nontrivial()
+                rt.require(tag in qtags, 'c20:due-not-queued', f'{where} at {now}: {tag} is due but not queued')
+                want = ['__all__'] if w.kind[tag] == 'analysis' else sorted(w.known_targets)
+                got = sorted(set(qtags[tag].get('todo')) | set(qtags[tag].get('doing')))
+                rt.require(got == want, 'c20:due-wrong-targets', f'{tag} queued for {got}, known targets {want}')
+                fired.setdefault(tag, []).append(now)
+    # boot events: once per process (the booted list survives reloads)
+    boots = [x for x in w.chron if x['task'] == 'tb.b']
+    rt.require(len(boots) <= 1 and len(schedule.booted) <= 1, 'c20:boot-fires-again', f'boot event ran {len(boots)} times / booted={len(schedule.booted)}')
+    if where == 'BOOT':
+        rt.require('tb.b' in qtags and list(qtags['tb.b'].get('todo')) == ['__all__'], 'c20:boot-not-queued', 'boot event not queued with the all-targets marker at start')
+    # recurrence: a weekly/monthly event that fired and is idle again must have a timer pending for its next period
+    for tag, times in fired.items():
+        if not times:
+            continue
+        n = w.nodes[tag]
+        idle = not (n.get('todo') or n.get('doing')) and tag not in qtags
+        if idle:
+            rt.nontrivial()
+            rt.require(bool(r.calls), 'c20:recurrence:no-timer-after-firing',
+                       f'{tag} fired at {times[-1]:%Y-%m-%d %H:%M}, completed, and no timer is pending: it cannot fire in the next period (status {n.get("status").name})')
+
+
 # ----------------------------------------------------------- bookkeeping -----
 INFO = {
     'technique': 'AST->SMT translation of schedule._delay (z3 Ints, calendar model) decided by z3 5.1 and re-checked with z3 4.8.12 and cvc5 1.0; CrossHair+z3 bounded histories for defer/periodics',
@@ -358,8 +493,8 @@ INFO = {
     'real function agree; E1: one path = one history of timer/firing/completion events',
     'functions': ['pl.schedule._delay (AST->SMT)', 'pl.schedule.defer', 'pl.schedule.periodics', 'pl.schedule.complete', 'dawgie.schedule'],
     'bounds': {
-        'quick': 'every clock instant 1970-01-01..2100-12-31 (microsecond resolution), dom 1..31, dow 0..6, any valid date 1970..2100, any time of day; histories k<=4',
-        'thorough': 'same kernel; histories k<=6',
+        'quick': 'every clock instant 1970-01-01..2100-12-31 (microsecond resolution), dom 1..31, dow 0..6, any valid date 1970..2100, any time of day; histories of <=6 events (timer fires at its due instant, work completes, reload, new target) from a boot on Monday 2024-01-01 02:58 with a weekly, a monthly and a boot event',
+        'thorough': 'same kernel; histories of <=8 events',
     },
     'assumptions': [
         'calendar model (days-from-civil, days-in-month, weekday) validated against datetime.date for every day 1970-2100 on every run',
@@ -378,4 +513,14 @@ def obligations(tier):
         for cl in clauses:
             out.append({'name': f'e2-{kind}-{cl}', 'group': 'e2', 'kind': 'call', 'call': 'vp.harness.c20:e2_clause',
                         'kwargs': {'kind': kind, 'clause': cl}, 'timeout': 900})
+    kk = 6 if tier == 'quick' else 8
+    n = len(HEVENTS)
+    from vp import ob
+
+    free = [f'e{i}' for i in range(kk)]
+    for first in range(n):
+        out.append(ob.make(f'hist-k{kk}-{first}', 'hist', 'vp.harness.c20:hist_body', ', '.join(f'{v}: int' for v in free[1:]), [' and '.join(f'0 <= {v} < {n}' for v in free[1:])],
+                           f"{{'k': {kk}, 'sel': [{first}, {', '.join(free[1:])}]}}", timeout=900 if tier == 'quick' else 3000))
+    out.append(ob.make('hist', 'hist', 'vp.harness.c20:hist_body', ', '.join(f'{v}: int' for v in free), [' and '.join(f'0 <= {v} < {n}' for v in free)],
+                       f"{{'k': {kk}, 'sel': [{', '.join(free)}]}}", timeout=300, twin=True))
     return out
